@@ -532,6 +532,8 @@ type EntryReport struct {
 	ValModels    []*Violation
 	Funcs        map[string]int
 	SolverQ      int
+	FallbackQ    int // queries z3 left unknown that were put to cvc5
+	FallbackDec  int // ... and decided by it
 	SolverTime   time.Duration
 	MaxQuery     time.Duration
 	SolverErrors int
@@ -655,6 +657,8 @@ func (e *Explorer) Explore(entry *ssa.Function) *EntryReport {
 						rep.Funcs[f] += n
 					}
 					rep.SolverQ += w.solver.Queries
+					rep.FallbackQ += w.solver.FallbackQueries
+					rep.FallbackDec += w.solver.FallbackDecided
 					rep.SolverTime += w.solver.Time
 					if w.solver.MaxQuery > rep.MaxQuery {
 						rep.MaxQuery = w.solver.MaxQuery
